@@ -543,6 +543,101 @@ def c06_after_caught_failure(res):
             _ok(res, sig)
 
 
+def c06_recorded_graph(res):
+    """Functions wrapped with autograd.misc.tracers.const_graph (the graph recorded at the first call is replayed
+    on later ones): every call - the recording one, replays on other inputs, replays under reverse / forward
+    differentiation at depth 1-2 - hands back exactly what plain NumPy returns for that input. The primitives are
+    called with keyword options, positional options, several arguments and arguments bound at wrap time."""
+    import autograd.numpy as anp
+    from autograd import value_and_grad
+    from autograd.core import make_jvp, make_vjp
+    from autograd.misc.tracers import const_graph
+
+    W = onp.arange(1.0, 13.0).reshape(3, 4) / 7.0
+    T = {
+        "sum_axis0": lambda xp: (lambda x: xp.sum(xp.sin(x), axis=0)),
+        "sum_axis1_keepdims": lambda xp: (lambda x: xp.sum(x * x, axis=1, keepdims=True)),
+        "mean_axis_neg": lambda xp: (lambda x: xp.mean(x, axis=-1)),
+        "std_ddof": lambda xp: (lambda x: xp.std(x, axis=0, ddof=1)),
+        "cumsum_axis": lambda xp: (lambda x: xp.cumsum(x, axis=1)),
+        "concatenate_axis": lambda xp: (lambda x: xp.concatenate((x, 2.0 * x), axis=1)),
+        "transpose_axes": lambda xp: (lambda x: xp.transpose(xp.exp(x), axes=(1, 0))),
+        "reshape_order": lambda xp: (lambda x: xp.reshape(x * 1.5, (x.size,), order="F")),
+        "method_kw": lambda xp: (lambda x: (x * 2.0).sum(axis=0)),
+        "sort_row_kind": lambda xp: (lambda x: xp.sort(x[1] * 2.0, kind="stable")),
+        "positional_only": lambda xp: (lambda x: xp.sum(xp.tanh(x), 0)),
+        "tensordot_axes": lambda xp: (lambda x: xp.tensordot(x, W.T, axes=([1], [0]))),
+        "max_keepdims": lambda xp: (lambda x: xp.max(x, axis=1, keepdims=True) - x),
+        "swapaxes_clip": lambda xp: (lambda x: xp.clip(xp.swapaxes(x, 0, 1), a_min=-0.5, a_max=0.7)),
+        "scalar_out": lambda xp: (lambda x: xp.sum(xp.prod(x, axis=1))),
+    }
+    rng = onp.random.Generator(onp.random.PCG64([2024, 6]))
+    xs = [rng.uniform(0.2, 1.3, size=(3, 4)) * rng.choice([-1.0, 1.0], size=(3, 4)) for _ in range(5)]
+    for name, mk in T.items():
+        for first in ("plain", "make_vjp", "make_jvp"):
+            res["evaluations"] += 1
+            sig = {"engine": "values", "family": "recorded_graph", "fn": name, "first_call": first}
+            case = {"kind": "recorded_graph", "fn": name, "first_call": first}
+            fnp, fag = mk(onp), mk(anp)
+            try:
+                with warnings.catch_warnings():
+                    warnings.simplefilter("ignore")
+                    cg = const_graph(fag)
+                    got = []
+                    if first == "plain":
+                        got.append(("record.plain", cg(xs[0]), fnp(xs[0])))
+                    elif first == "make_vjp":
+                        got.append(("record.make_vjp", make_vjp(cg, xs[0])[1], fnp(xs[0])))
+                    else:
+                        got.append(("record.make_jvp", make_jvp(cg, xs[0])(onp.ones((3, 4)))[0], fnp(xs[0])))
+                    got.append(("replay.plain", cg(xs[1]), fnp(xs[1])))
+                    got.append(("replay.make_vjp", make_vjp(cg, xs[2])[1], fnp(xs[2])))
+                    got.append(("replay.make_jvp", make_jvp(cg, xs[3])(onp.ones((3, 4)))[0], fnp(xs[3])))
+                    got.append(("replay.value_and_grad", value_and_grad(lambda t: anp.sum(cg(t)))(xs[4])[0], onp.sum(fnp(xs[4]))))
+                    got.append(("replay.depth2", make_vjp(lambda t: make_vjp(cg, t)[1], xs[1])[1], fnp(xs[1])))
+                    got.append(("replay.plain_again", cg(xs[0]), fnp(xs[0])))
+            except Exception as e:
+                _viol(res, sig, "exception:" + type(e).__name__, case, traceback.format_exc()[-400:])
+                continue
+            bad = None
+            for (nm, v, ref) in got:
+                if find_boxes(v):
+                    bad = ("tracer_leak", nm, v, ref)
+                    break
+                if not same_value(v, ref, ulps=2 if nm == "replay.value_and_grad" else 0):
+                    bad = ("primal_mismatch", nm, v, ref)
+                    break
+            if bad:
+                _viol(res, dict(sig, where=bad[1]), bad[0], case, "%s: %s vs NumPy %s" % (bad[1], describe(bad[2]), describe(bad[3])))
+            else:
+                _ok(res, sig)
+    # several arguments, and arguments bound at wrap time (const_graph(fun, *bound))
+    for name in ("two_args", "bound_first", "bound_kw"):
+        res["evaluations"] += 1
+        sig = {"engine": "values", "family": "recorded_graph", "fn": name, "first_call": "plain"}
+        case = {"kind": "recorded_graph", "fn": name, "first_call": "plain"}
+        f2 = lambda xp: (lambda a, b, scale=1.0: xp.sum(a * xp.cos(b), axis=0) * scale)
+        try:
+            if name == "two_args":
+                cg = const_graph(f2(anp))
+                pairs = [(cg(xs[0], xs[1]), f2(onp)(xs[0], xs[1])), (cg(xs[2], xs[3]), f2(onp)(xs[2], xs[3])), (make_vjp(lambda t: cg(t, xs[4]), xs[1])[1], f2(onp)(xs[1], xs[4]))]
+            elif name == "bound_first":
+                cg = const_graph(f2(anp), xs[0])
+                pairs = [(cg(xs[1]), f2(onp)(xs[0], xs[1])), (cg(xs[2]), f2(onp)(xs[0], xs[2])), (make_jvp(cg, xs[3])(onp.ones((3, 4)))[0], f2(onp)(xs[0], xs[3]))]
+            else:
+                cg = const_graph(f2(anp), scale=2.5)
+                pairs = [(cg(xs[1], xs[2]), f2(onp)(xs[1], xs[2], scale=2.5)), (cg(xs[3], xs[4]), f2(onp)(xs[3], xs[4], scale=2.5))]
+        except Exception as e:
+            _viol(res, sig, "exception:" + type(e).__name__, case, traceback.format_exc()[-400:])
+            continue
+        for k_, (v, ref) in enumerate(pairs):
+            if find_boxes(v) or not same_value(v, ref):
+                _viol(res, dict(sig, where="call%d" % k_), "primal_mismatch", case, "call %d: %s vs NumPy %s" % (k_, describe(v), describe(ref)))
+                break
+        else:
+            _ok(res, sig)
+
+
 # ================================================================ C14
 
 
@@ -960,6 +1055,73 @@ def c14_compositions(res, rng):
                 _ok(res, sig)
 
 
+def c14_user_notrace(res):
+    """A user primitive declared non-differentiable through autograd.extend.register_notrace (the mechanism behind
+    floor / sign / argmax): from the declaration on it returns plain values and blocks derivative flow in the mode
+    it was declared for - whether the declaration came before the first call or after the primitive had already
+    been called plain / traced in reverse / traced forward with straight-through rules."""
+    import autograd.numpy as anp
+    from autograd import deriv, grad
+    from autograd.extend import JVPNode, VJPNode, defjvp, defvjp, primitive, register_notrace
+    from autograd.tracer import isbox
+
+    xs = onp.array([1.5, -0.5, 3.25])
+    for hist in ("register_first", "plain_then_register", "rev_then_register", "fwd_then_register", "both_then_register", "nested_then_register", "rev_only_declared"):
+        res["evaluations"] += 1
+        sig = {"engine": "values", "family": "user_notrace", "history": hist}
+        case = {"kind": "user_notrace", "history": hist}
+        try:
+            with warnings.catch_warnings():
+                warnings.simplefilter("ignore")
+                q = primitive(lambda x: onp.floor(x))
+                defvjp(q, lambda ans, x: lambda g: g)
+                defjvp(q, lambda g, ans, x: g)
+                f = lambda x: x * q(x)
+                if hist == "plain_then_register":
+                    q(2.5), q(xs)
+                if hist in ("rev_then_register", "both_then_register", "rev_only_declared"):
+                    assert grad(f)(2.5) == 4.5
+                if hist in ("fwd_then_register", "both_then_register", "rev_only_declared"):
+                    assert deriv(f)(2.5) == 4.5
+                if hist == "nested_then_register":
+                    assert grad(lambda a: grad(lambda b: f(b) * a)(2.5))(1.0) == 4.5
+                register_notrace(VJPNode, q)
+                if hist != "rev_only_declared":
+                    register_notrace(JVPNode, q)
+                seen = []
+
+                def f2(x):
+                    v = q(x)
+                    seen.append(v)
+                    return x * v
+
+                g_rev = grad(f2)(2.5)
+                n_rev = len(seen)
+                g_fwd = deriv(f2)(2.5)
+                leaked_rev = any(isbox(v) for v in seen[:n_rev])
+                leaked_fwd = any(isbox(v) for v in seen[n_rev:])
+                g_arr = grad(lambda x: anp.sum(x * q(x)))(xs)
+                z = grad(lambda x: anp.sum(q(x)) * 1.0)(xs)
+                g2 = grad(lambda a: grad(lambda b: b * q(b) * a)(2.5))(1.0)
+        except Exception as e:
+            _viol(res, sig, "exception:" + type(e).__name__, case, traceback.format_exc()[-400:])
+            continue
+        want_fwd = 4.5 if hist == "rev_only_declared" else 2.0
+        bad = None
+        if leaked_rev or (leaked_fwd and hist != "rev_only_declared"):
+            bad = "a primitive declared non-differentiable returned a tracer"
+        elif g_rev != 2.0 or g2 != 2.0:
+            bad = "reverse mode: x*q(x) differentiates to %r (nested: %r), expected q(x)=2.0" % (g_rev, g2)
+        elif g_fwd != want_fwd:
+            bad = "forward mode: x*q(x) differentiates to %r, expected %r" % (g_fwd, want_fwd)
+        elif not onp.array_equal(g_arr, onp.floor(xs)) or not (onp.array_equal(z, onp.zeros(3)) and onp.asarray(z).dtype == onp.float64):
+            bad = "array argument: d/dx sum(x*q(x)) = %r, d/dx sum(q(x)) = %r" % (g_arr, z)
+        if bad:
+            _viol(res, sig, "declared_nograd_not_honoured", case, bad)
+        else:
+            _ok(res, sig)
+
+
 def c14_programs(res, rng, i, seedlist=None):
     """Random dataflow programs whose float output cannot depend on the differentiated argument:
     (a) the program runs on q(x) with q piecewise constant; (b) on another argument; (c) x only feeds
@@ -1071,10 +1233,12 @@ def run_shard(pid, tier, seed, idx, n):
             c06_type_queries(res)
         if idx == 1 % n:
             c06_after_caught_failure(res)
+        if idx == 2 % n:
+            c06_recorded_graph(res)
     else:
         rng = onp.random.Generator(onp.random.PCG64([seed, idx, 67]))
         # the C14 workload is small and deterministic: shard by family
-        fams = [c14_independent, c14_nograd, c14_compositions]
+        fams = [c14_independent, c14_nograd, c14_compositions, lambda r_, g_: c14_user_notrace(r_)]
         for j, fam in enumerate(fams):
             if j % n == idx % max(1, min(n, len(fams))) and idx < len(fams):
                 fam(res, rng)
@@ -1119,6 +1283,9 @@ def replay(pid, case):
     elif k == "after_caught_failure":
         c06_after_caught_failure(res)
         res["violations"] = [v for v in res["violations"] if v["case"] == case]
+    elif k == "recorded_graph":
+        c06_recorded_graph(res)
+        res["violations"] = [v for v in res["violations"] if v["case"] == case]
     elif k == "typequery":
         c06_type_queries(res)
         res["violations"] = [v for v in res["violations"] if v["case"].get("value") == case["value"] and v["case"].get("mode") == case["mode"]]
@@ -1133,6 +1300,9 @@ def replay(pid, case):
         res["violations"] = [v for v in res["violations"] if v["case"].get("fn") == case["fn"] and v["case"]["kind"] == k and v["case"].get("template") == case.get("template") and v["case"].get("mode") == case.get("mode")]
     elif k == "independent_program":
         c14_programs(res, onp.random.Generator(onp.random.PCG64(case.get("seed", [0, case["seed_i"], 101]))), case["seed_i"], case.get("seed"))
+    elif k == "user_notrace":
+        c14_user_notrace(res)
+        res["violations"] = [v for v in res["violations"] if v["case"] == case]
     elif k in ("composition", "control_flow", "nested_independent"):
         c14_compositions(res, rng)
         res["violations"] = [v for v in res["violations"] if v["case"] == case]
